@@ -803,15 +803,19 @@ TEMPLATES = [t_output_also_consumed, t_producer_zero_float_out, t_repeated_opera
              t_chain, t_weight_chain]
 
 
-def model_for_case(rng, multi_sub_p=0.0, template_p=0.15, **kw):
+def model_for_case(rng, multi_sub_p=0.0, template_p=0.15, shuffle_p=0.15, **kw):
   """Default mixture used by the graph-level properties."""
   r = rng.random()
   if r < template_p:
-    return TEMPLATES[int(rng.integers(len(TEMPLATES)))](rng)
-  n_sub = 1
-  if rng.random() < multi_sub_p:
-    n_sub = int(rng.integers(2, 4))
-  return rand_model(rng, n_sub=n_sub, **kw)
+    spec = TEMPLATES[int(rng.integers(len(TEMPLATES)))](rng)
+  else:
+    n_sub = 1
+    if rng.random() < multi_sub_p:
+      n_sub = int(rng.integers(2, 4))
+    spec = rand_model(rng, n_sub=n_sub, **kw)
+  if shuffle_p and rng.random() < shuffle_p:
+    spec = shuffle_indices(spec, rng, dangling=bool(rng.random() < 0.3))
+  return spec
 
 
 # ---------------------------------------------------------------- surgery
@@ -968,3 +972,59 @@ def t_fanout(rng, k=None):
   g.classes.update(('multi_consumer', 'fanout'))
   g.finish(outs, 'serving_default')
   return _spec(b, [g], 'fanout'), consumers
+
+
+# ---------------------------------------------------------------- semantics-preserving surgery (index hygiene)
+
+def shuffle_indices(spec, rng, tensors=True, buffers=True, signatures=True, dangling=False):
+  """Returns a spec describing the SAME model with tensor indices permuted inside every subgraph, data buffers
+  permuted (buffer 0 stays the empty sentinel), the signature list reordered and optionally an unused constant
+  tensor added.  Nothing about the computation changes; only code that confuses an index with an identity notices."""
+  m = read(spec.content)
+  if tensors:
+    for si, sg in enumerate(m.subgraphs):
+      n = len(sg.tensors)
+      perm = [int(p) for p in rng.permutation(n)]       # old index -> new index
+      new = [None] * n
+      for old, t in enumerate(sg.tensors):
+        new[perm[old]] = t
+      sg.tensors = new
+      mp = lambda i: -1 if int(i) < 0 else perm[int(i)]
+      for op in sg.operators:
+        op.inputs = [mp(i) for i in op.inputs]
+        op.outputs = [mp(i) for i in op.outputs]
+      sg.inputs = [mp(i) for i in sg.inputs]
+      sg.outputs = [mp(i) for i in sg.outputs]
+      for s in m.signatureDefs or []:
+        if s.subgraphIndex == si:
+          for tm in list(s.inputs) + list(s.outputs):
+            tm.tensorIndex = perm[int(tm.tensorIndex)]
+  if buffers and len(m.buffers) > 2:
+    nb = len(m.buffers)
+    bperm = [0] + [int(p) + 1 for p in rng.permutation(nb - 1)]
+    newb = [None] * nb
+    for old, b in enumerate(m.buffers):
+      newb[bperm[old]] = b
+    m.buffers = newb
+    for sg in m.subgraphs:
+      for t in sg.tensors:
+        t.buffer = bperm[int(t.buffer)]
+  if dangling:
+    sg = m.subgraphs[int(rng.integers(len(m.subgraphs)))]
+    b = S.BufferT()
+    b.data = np.frombuffer(np.arange(6, dtype=np.float32).tobytes(), dtype=np.uint8)
+    m.buffers.append(b)
+    t = S.TensorT()
+    t.name = (sg.tensors[0].name.split(b'/')[0] + b'/unused_const_%d' % int(rng.integers(1 << 20)))
+    t.shape = [2, 3]
+    t.type = TT.FLOAT32
+    t.buffer = len(m.buffers) - 1
+    sg.tensors.append(t)
+  sigs = list(spec.signatures)
+  if signatures and m.signatureDefs and len(m.signatureDefs) > 1:
+    order = [int(p) for p in rng.permutation(len(m.signatureDefs))]
+    m.signatureDefs = [m.signatureDefs[i] for i in order]
+    by_key = {s['key']: s for s in sigs}
+    sigs = [by_key[s.signatureKey.decode()] for s in m.signatureDefs]
+  return ModelSpec(bytes(flatbuffer_utils.convert_object_to_bytearray(m)), sigs, spec.classes | {'shuffled_indices'},
+                   spec.label + '+shuffled')
